@@ -574,32 +574,75 @@ def loc_of(f, bb):
     return t.get("loc") or f.span
 
 
+def _begin_testers(facts):
+    """functions of the compiler that test a form's head for the keyword `begin`"""
+    out = []
+    for p, f in facts.fns.items():
+        if not p.startswith(COMPILE):
+            continue
+        if any(callee(t) == "marwood::cell::Cell::is_symbol_str" and any((op_const(a) or {}).get("str") == "begin" for a in t["args"])
+               for bb, t in f.calls()):
+            out.append(p)
+    return sorted(out)
+
+
 def r01q(ctx, rep, rule="R01q"):
     from . import tables
-    facts = ctx["facts"]
-    rep.rule(rule, "an outermost begin is spliced: `begin` is a prelude macro that wraps its forms in a procedure, which would turn "
-             "(begin (define x 1)) at top level into an internal definition. Vm::compile_runnable therefore recognises the "
-             "keyword itself (a string test for `begin`) and compiles the forms one by one — a loop around Vm::compile — into "
-             "the top-level procedure, where a definition defines a global (R7RS 5.1).")
+    facts, cg = ctx["facts"], ctx["cg"]
+    rep.rule(rule, "a begin in body position is spliced: `begin` is a prelude macro that wraps its forms in a procedure, which turns "
+             "(begin (define x 1)) into an internal definition of that procedure. Where a body is compiled — the top level "
+             "(Vm::compile_runnable) and the bodies of lambda and of a procedure definition (transform_procedure_application) — "
+             "the compiler therefore recognises the keyword itself (a string test for `begin`, its own or a helper's) and puts "
+             "the forms of the begin in its place (R7RS 4.2.3, 5.1, 5.3.2); the helper expands a macro use in body position "
+             "before it tests, which is how a macro emits several definitions; compile_runnable compiles the forms one by one — "
+             "a loop around Vm::compile — into the top-level procedure, where a definition defines a global.")
+    testers = _begin_testers(facts)
     f = need(rep, rule, facts, COMPILE + "compile_runnable")
     if f is None:
         return
-    kws = [kw for kw, bb, t in tables.str_eq_consts(f)]
-    for g in facts.closures_of(f):
-        kws += [kw for kw, bb, t in tables.str_eq_consts(g)]
-    is_kw = any(callee(t) == "marwood::cell::Cell::is_symbol_str" and any((op_const(a) or {}).get("str") == "begin" for a in t["args"])
-                for bb, t in f.calls())
     body = set()
     for src, h in f.back_edges():
         body |= (f.reach_from(h) & f.reach_back(src)) | {h, src}
     looped = [bb for bb, t in f.calls() if callee(t) == COMPILE + "compile" and bb in body]
+    uses = f.path in testers or any(callee(t) in testers for bb, t in f.calls())
     key = rule + "|compile_runnable|begin-spliced"
-    if ("begin" in kws or is_kw) and looped:
-        rep.ok(rule, key, "compile_runnable tests for `begin` and compiles its forms in a loop into the top-level procedure", [f.span])
+    if uses and looped:
+        rep.ok(rule, key, "compile_runnable has `begin` tested for and compiles the forms in a loop into the top-level procedure", [f.span])
     else:
         rep.fail(rule, key, "compile_runnable hands an outermost (begin ...) to the macro expander like any other form: its "
                  "definitions become internal definitions of the procedure `begin` expands to, so (begin (define zz 5)) defines "
                  "nothing at top level", [f.span])
+    g = need(rep, rule, facts, TPA)
+    if g is not None:
+        kws = set()
+        for bb, t in g.calls():
+            if callee(t) == "marwood::cell::Cell::is_symbol_str":
+                for a in t["args"]:
+                    c = op_const(a)
+                    if c is not None and "str" in c:
+                        kws.add(c["str"])
+        uses = g.path in testers or any(callee(t) in testers for bb, t in g.calls())
+        key = rule + "|transform_procedure_application|body-spliced"
+        ok = uses and {"lambda", "define"} <= kws
+        (rep.ok if ok else rep.fail)(
+            rule, key, "the bodies of lambda and of a procedure definition have their begins spliced before they are expanded" if ok else
+            "transform_procedure_application expands a (begin ...) in the body of a lambda or of a procedure definition like any other "
+            "macro use (keywords recognised: %s; splicing helper called: %s): the definitions inside it become internal "
+            "definitions of a throw-away procedure, so (let () (begin (define a 1)) a) refers to an outer a" % (sorted(kws), uses), [g.span])
+    # the helper looks through macro uses
+    for p in testers:
+        h = facts.fns[p]
+        if p in (COMPILE + "compile_runnable",):
+            continue
+        lb = set()
+        for src, hd in h.back_edges():
+            lb |= (h.reach_from(hd) & h.reach_back(src)) | {hd, src}
+        expands = [bb for bb, t in h.calls() if (callee(t) or "").endswith("Transform::transform") and bb in lb]
+        key = "%s|%s|expands-head" % (rule, h.short.rsplit("::", 1)[-1])
+        (rep.ok if expands else rep.fail)(
+            rule, key, "%s expands a macro use in body position before testing for begin" % h.short if expands else
+            "%s tests for a literal begin only: a macro that expands into (begin (define a ..) (define b ..)) — the way a macro "
+            "emits several definitions — is not spliced" % h.short, [h.span])
 
 
 def run(ctx, rep):
